@@ -37,6 +37,7 @@ Inductive cmd : Type :=
 | CEdit (loc : option str) (meta : N) (msg : str)            (* stg edit -m <msg> [<patch>] *)
 | CRebase (target : gtarget)                                  (* stg rebase <committish> *)
 | CSquash (ranges : list str) (nm : str) (meta : N) (msg : str) (* stg squash -m <msg> -n <nm> <patches> *)
+| CPick (src : gtarget) (nm : option str) (noapply : bool)      (* stg pick [--name <nm>] [--noapply] <source> *)
 | CInspect                                                    (* series/id/top/... : open only *)
 (* plain git, outside stg *)
 | GEdit (cell : nat) (v : N)                                  (* modify the work tree + index *)
@@ -44,6 +45,7 @@ Inductive cmd : Type :=
 | GAmend (meta : N) (subj : str)                              (* git commit --amend -a *)
 | GResetHard (target : gtarget)
 | GMerge (meta : N)                                           (* a merge commit on top (2 parents) *)
+| GConfigApc (b : bool)                                       (* git config stgit.push.allow-conflicts <b> *)
 with gtarget : Type :=
 | TPatch (n : str)                                            (* the commit of a patch *)
 | TBaseAncestor (k : nat)                                     (* base~k *)
@@ -72,10 +74,10 @@ Definition head_tree (w : world) : tree := tree_of (w_objs w) (w_branch w).
 Definition dirty (w : world) : bool := negb (tree_eqb (w_wt w) (head_tree w)) || w_unmerged w.
 
 Definition with_wt (w : world) (wt : tree) (um : bool) : world :=
-  mkWorld (w_objs w) (w_branch w) (w_stack w) (w_prefs w) wt um (w_base w).
+  mkWorld (w_objs w) (w_branch w) (w_stack w) (w_prefs w) wt um (w_base w) (w_apc w).
 
 Definition with_branch (w : world) (objs : store) (b : oid) : world :=
-  mkWorld objs b (w_stack w) (w_prefs w) (w_wt w) (w_unmerged w) (w_base w).
+  mkWorld objs b (w_stack w) (w_prefs w) (w_wt w) (w_unmerged w) (w_base w) (w_apc w).
 
 (* Stack::check_head_top_mismatch: the topmost applied patch must be the branch head *)
 Definition head_top_ok (op : opened) : bool :=
@@ -85,7 +87,8 @@ Definition head_top_ok (op : opened) : bool :=
   end.
 
 (* resolve_allow_push_conflicts with stgit.push.allow-conflicts unset *)
-Definition allow_conf (c : option bool) : bool := match c with Some b => b | None => true end.
+(* argset::resolve_allow_push_conflicts: the --conflicts flag, else stgit.push.allow-conflicts *)
+Definition allow_conf (cfg : bool) (c : option bool) : bool := match c with Some b => b | None => cfg end.
 
 Definition is_no_change (objs : store) (o : oid) : bool :=
   match parents_of objs o with
@@ -167,7 +170,7 @@ Definition run_push (w : world) (ranges : option (list str)) (number : option Z)
             else if negb keep && negb noapply && dirty w1 then err2 w1
             else
               let ps := if reverse then rev ps else ps in
-              transact op (opts CDisallow (allow_conf conflicts) false true true false)
+              transact op (opts CDisallow (allow_conf (w_apc w1) conflicts) false true true false)
                 (fun t =>
                    if settree then push_tree_list ps t
                    else if noapply then
@@ -227,7 +230,7 @@ Definition run_pop (w : world) (ranges : option (list str)) (number : option Z)
                   let topmost := skipn (length (s_applied s) - length new_unapplied) (s_applied s) in
                   if spill && negb (list_name_eqb new_unapplied topmost) then err2 w1
                   else
-                    transact op (opts CDisallow true false (negb spill) true false)
+                    transact op (opts CDisallow (w_apc (op_world op)) false (negb spill) true false)
                       (reorder_patches (Some new_applied) (Some (new_unapplied ++ s_unapplied s)) None)
                       MOp
             end
@@ -249,7 +252,7 @@ Definition run_goto (w : world) (loc : str) (keep merged : bool) (conflicts : op
           else if negb keep && dirty w1 then err2 w1
           else
             rres_bind w1 (resolve_constrained (view_of s) LCVisible l) (fun pn =>
-              transact op (opts CDisallow (allow_conf conflicts) false true true false)
+              transact op (opts CDisallow (allow_conf (w_apc w1) conflicts) false true true false)
                 (fun t =>
                    match position (name_eqb pn) (t_applied t) with
                    | Some pos =>
@@ -288,7 +291,7 @@ Definition run_float (w : world) (ranges : list str) (noapply keep : bool) : wor
                     let '(a, u) :=
                       if noapply then (filter notin (s_applied s), ps ++ filter notin (s_unapplied s))
                       else (filter notin (s_applied s) ++ ps, filter notin (s_unapplied s)) in
-                    transact op (opts CDisallow true false true true false)
+                    transact op (opts CDisallow (w_apc (op_world op)) false true true false)
                       (reorder_patches (Some a) (Some u) None) MOp
               end)
       end
@@ -352,7 +355,7 @@ Definition run_sink (w : world) (ranges : option (list str)) (target : option (b
                       let '(a, u) :=
                         if nopush then (firstn tp rem_a ++ ps, skipn tp rem_a ++ rem_u)
                         else (firstn tp rem_a ++ ps ++ skipn tp rem_a, rem_u) in
-                      transact op (opts CDisallow true false true true false)
+                      transact op (opts CDisallow (w_apc (op_world op)) false true true false)
                         (reorder_patches (Some a) (Some u) None) MOp
                   end))
       end
@@ -389,7 +392,7 @@ Definition run_delete (w : world) (ranges : option (list str)) (top all fa fu fh
             else match ps with
                  | [] => ok0 w1
                  | _ =>
-                     transact op (opts CDisallow (allow_conf conflicts) false (negb spill) true false)
+                     transact op (opts CDisallow (allow_conf (w_apc w1) conflicts) false (negb spill) true false)
                        (fun t =>
                           let '(t1, to_push) := delete_patches (fun n => mem n ps) t in
                           push_patches to_push false t1)
@@ -427,7 +430,7 @@ Definition run_unhide (w : world) (ranges : list str) : world * exitc :=
           if negb (head_top_ok op) then err2 w1
           else
             rres_bind w1 (resolve_names (view_of s) RCHidden prs) (fun ps =>
-              transact op (opts CAllow true false false true false) (unhide_patches ps) MOp)
+              transact op (opts CAllow (w_apc (op_world op)) false false true false) (unhide_patches ps) MOp)
       end
   end.
 
@@ -457,10 +460,10 @@ Definition run_rename (w : world) (old : option str) (new : str) : world * exitc
                 | Some c =>
                     if mem newn (all_of s) then err2 w1
                     else if negb (name_eqb c oldn) then err2 w1
-                    else transact op (opts CAllow true false false true false)
+                    else transact op (opts CAllow (w_apc (op_world op)) false false true false)
                                   (rename_patch oldn newn) MOp
                 | None =>
-                    transact op (opts CAllow true false false true false)
+                    transact op (opts CAllow (w_apc (op_world op)) false false true false)
                              (rename_patch oldn newn) MOp
                 end)
           end
@@ -516,7 +519,7 @@ Definition run_commit (w : world) (ranges : option (list str)) (number : option 
                                               | None => false end) ps in
               if negb allow_empty && negb (match empties with [] => true | _ => false end) then err2 w1
               else if negb (head_top_ok op) then err2 w1
-              else transact op (opts CAllowIfSameTop true false true true false)
+              else transact op (opts CAllowIfSameTop (w_apc (op_world op)) false true true false)
                             (commit_patches ps) MOp
           end
       end
@@ -545,52 +548,91 @@ Definition check_patchnames (s : sstate) (names : list name) : bool :=
          end
      end) [] names.
 
-Definition run_uncommit (w : world) (number : option N) (names : list str) : world * exitc :=
-  let parsed := fold_right (fun x acc => match from_str x, acc with
-                                         | Some n, Some l => Some (n :: l)
-                                         | _, _ => None end) (Some []) names in
-  match parsed with
-  | None => (w, X1)
-  | Some names =>
-      match open_stack PAuto w with
-      | None => err2 w
-      | Some op =>
-          let w1 := op_world op in
-          let s := op_state op in
-          if negb (head_top_ok op) then err2 w1
-          else
-            let plan : (world * exitc) + (list oid * list name) :=
-              match number with
-              | Some k =>
-                  match walk_down (w_objs w1) (op_base op) (N.to_nat k) with
-                  | None => inl (w1, X2)
-                  | Some commits =>
-                      match names with
-                      | [prefix] =>
-                          let pns := map (fun i => prefix ++ dec_of_N (N.of_nat i))
-                                         (rev (seq 1 (N.to_nat k))) in
-                          if forallb (fun n => validate n) pns
-                          then (if check_patchnames s pns then inr (commits, pns) else inl (w1, X2))
-                          else inl (w1, X2)
-                      | _ => inl (w1, X2)
-                      end
-                  end
-              | None =>
-                  if negb (check_patchnames s names) then inl (w1, X2)
-                  else match walk_down (w_objs w1) (op_base op) (length names) with
-                       | None => inl (w1, X2)
-                       | Some commits => inr (commits, names)
-                       end
-              end in
-            match plan with
-            | inl r => r
-            | inr (commits, pns) =>
-                if negb (Nat.eqb (length commits) (length pns)) then (w1, XPanic)
-                else transact op (opts CAllow true false false false false)
-                       (uncommit_patches (rev (combine pns commits))) MOp
-            end
-      end
-  end.
+Section Uncommit.
+  Variable lower_s : str -> str.
+
+  (* make_patchnames: from the oldest commit to the newest, the name made from the message
+     (lower-cased, at most 30 characters) is made unique against every patch of the stack and
+     the names given out so far; None = a panic inside make / uniquify *)
+  Definition make_patchnames (objs : store) (s : sstate) (commits : list oid) : option (list name) :=
+    let one (acc : option (list name * list name)) (c : oid) :=
+      match acc with
+      | None => None
+      | Some (taken, out) =>
+          match make lower_s (subj_of objs c) true (Some 30) with
+          | Ok nm => match uniquify nm [] taken with
+                     | UOk pn => Some (taken ++ [pn], pn :: out)
+                     | UFuel => None
+                     end
+          | _ => None
+          end
+      end in
+    match fold_left one (rev commits) (Some (all_of s, [])) with
+    | Some (_, out) => Some out
+    | None => None
+    end.
+
+  Definition run_uncommit (w : world) (number : option N) (names : list str) : world * exitc :=
+    let parsed := fold_right (fun x acc => match from_str x, acc with
+                                           | Some n, Some l => Some (n :: l)
+                                           | _, _ => None end) (Some []) names in
+    match parsed with
+    | None => (w, X1)
+    | Some names =>
+        match open_stack PAuto w with
+        | None => err2 w
+        | Some op =>
+            let w1 := op_world op in
+            let s := op_state op in
+            if negb (head_top_ok op) then err2 w1
+            else
+              let generated (commits : list oid) : (world * exitc) + (list oid * list name) :=
+                match make_patchnames (w_objs w1) s commits with
+                | Some pns => inr (commits, pns)
+                | None => inl (w1, XPanic)
+                end in
+              let plan : (world * exitc) + (list oid * list name) :=
+                match number with
+                | Some k =>
+                    match walk_down (w_objs w1) (op_base op) (N.to_nat k) with
+                    | None => inl (w1, X2)
+                    | Some commits =>
+                        match names with
+                        | [] => generated commits
+                        | [prefix] =>
+                            let pns := map (fun i => prefix ++ dec_of_N (N.of_nat i))
+                                           (rev (seq 1 (N.to_nat k))) in
+                            if forallb (fun n => validate n) pns
+                            then (if check_patchnames s pns then inr (commits, pns) else inl (w1, X2))
+                            else inl (w1, X2)
+                        | _ => inl (w1, X2)
+                        end
+                    end
+                | None =>
+                    match names with
+                    | [] =>
+                        match walk_down (w_objs w1) (op_base op) 1 with
+                        | None => inl (w1, X2)
+                        | Some commits => generated commits
+                        end
+                    | _ =>
+                        if negb (check_patchnames s names) then inl (w1, X2)
+                        else match walk_down (w_objs w1) (op_base op) (length names) with
+                             | None => inl (w1, X2)
+                             | Some commits => inr (commits, names)
+                             end
+                    end
+                end in
+              match plan with
+              | inl r => r
+              | inr (commits, pns) =>
+                  if negb (Nat.eqb (length commits) (length pns)) then (w1, XPanic)
+                  else transact op (opts CAllow (w_apc (op_world op)) false false false false)
+                         (uncommit_patches (rev (combine pns commits))) MOp
+              end
+        end
+    end.
+End Uncommit.
 
 Definition run_clean (w : world) (fa fu : bool) : world * exitc :=
   match open_stack PAllow w with
@@ -617,7 +659,7 @@ Definition run_clean (w : world) (fa fu : bool) : world * exitc :=
         match to_delete with
         | [] => ok0 w1
         | _ =>
-            transact op (opts CAllow true false false true false)
+            transact op (opts CAllow (w_apc (op_world op)) false false true false)
               (fun t => let '(t1, to_push) := delete_patches (fun n => mem n to_delete) t in
                         push_patches to_push false t1)
               MOp
@@ -649,6 +691,7 @@ Definition run_new (w : world) (nm : str) (meta : N) (msg : str) : world * exitc
   end.
 
 Definition s_refresh_temp : str := [114;101;102;114;101;115;104;45;116;101;109;112].
+Definition s_refresh_of : str := [82;101;102;114;101;115;104;32;111;102;32].      (* "Refresh of " *)
 
 (* stg refresh, default form: absorb the whole work tree into the top patch.  Two
    transactions, hence two log entries. *)
@@ -665,7 +708,7 @@ Definition run_refresh (w : world) : world * exitc :=
         | Some pn =>
             if w_unmerged w1 then err2 w1            (* write-tree of an unmerged index fails *)
             else
-              let '(objs1, tmpc) := put (w_objs w1) (plain [w_branch w1] (w_wt w1) 0 []) in
+              let '(objs1, tmpc) := put (w_objs w1) (plain [w_branch w1] (w_wt w1) 0 (s_refresh_of ++ pn)) in
               let tmpname :=
                 match uniquify s_refresh_temp [] (all_of s) with UOk n => n | UFuel => s_refresh_temp end in
               let op1 := mkOpened (with_objs w1 objs1) s (op_base op) (op_initialized op) in
@@ -675,7 +718,7 @@ Definition run_refresh (w : world) : world * exitc :=
                   | None => err2 w2
                   | Some op2 =>
                       (* re-opened stack as returned by execute *)
-                      transact op2 (opts CDisallow true false true true false)
+                      transact op2 (opts CDisallow (w_apc (op_world op2)) false true true false)
                         (fun t =>
                            match t_patch t pn, t_patch t tmpname with
                            | Some pc, Some tc =>
@@ -731,7 +774,7 @@ Definition run_spill (w : world) : world * exitc :=
                                  (match c with Some c => c_meta c | None => 0 end)
                                  (subj_of (w_objs w1) pc)) in
                     let op' := mkOpened (with_objs w1 objs') s (op_base op) (op_initialized op) in
-                    transact op' (opts CDisallow true false false true false) (update_patch pn o) MOp
+                    transact op' (opts CDisallow (w_apc (op_world op')) false false true false) (update_patch pn o) MOp
                 end
             end
         end
@@ -790,7 +833,7 @@ Definition run_undo_like (w : world) (steps : Z) (hard : bool) (msg : msgkind) :
     | None => err2 (op_world op0)
     | Some op =>
       let w1 := op_world op in
-      transact op (opts CDisallow true hard true true true)
+      transact op (opts CDisallow (w_apc (op_world op)) hard true true true)
         (fun t =>
            match w_stack w1 with
            | None => TErr t
@@ -853,7 +896,7 @@ Definition run_reset (w : world) (entry : option nat) (ranges : option (list str
                   | None => err2 w1                      (* invalid committish *)
                   | Some st =>
                       transact op
-                        (opts CDisallow true hard true true
+                        (opts CDisallow (w_apc w1) hard true true
                               (match ranges with None => true | Some _ => false end))
                         (fun t =>
                            match ranges with
@@ -935,7 +978,7 @@ Section Repair.
         let notin := fun n => negb (mem n applied) in
         let unapplied := filter notin (s_applied s) ++ filter notin (s_unapplied s) in
         let hidden := filter notin (s_hidden s) in
-        transact op (opts CDisallow true false false true false)
+        transact op (opts CDisallow (w_apc (op_world op)) false false true false)
           (fun t =>
              tbind (repair_appliedness applied unapplied hidden t)
                (fun t0 =>
@@ -967,7 +1010,7 @@ Definition run_log_clear (w : world) : world * exitc :=
       match state_commit (w_objs w1) s' MOp with
       | None => (w1, XPanic)
       | Some (objs', so) =>
-          (mkWorld objs' (w_branch w1) (Some so) (w_prefs w1) (w_wt w1) (w_unmerged w1) (w_base w1), X0)
+          (mkWorld objs' (w_branch w1) (Some so) (w_prefs w1) (w_wt w1) (w_unmerged w1) (w_base w1) (w_apc w1), X0)
       end
   end.
 
@@ -992,7 +1035,7 @@ Definition run_git (w : world) (c : cmd) : world * exitc :=
       match first_parent (w_objs w) (w_branch w) with
       | Some p =>
           let '(objs', o) := put (w_objs w) (plain [w_branch w; p] (head_tree w) meta []) in
-          (mkWorld objs' o (w_stack w) (w_prefs w) (head_tree w) false (w_base w), X0)
+          (mkWorld objs' o (w_stack w) (w_prefs w) (head_tree w) false (w_base w) (w_apc w), X0)
       | None => (w, X2)
       end
   | GResetHard tgt =>
@@ -1008,9 +1051,11 @@ Definition run_git (w : world) (c : cmd) : world * exitc :=
         end in
       match target with
       | Some o =>
-          (mkWorld (w_objs w) o (w_stack w) (w_prefs w) (tree_of (w_objs w) o) false (w_base w), X0)
+          (mkWorld (w_objs w) o (w_stack w) (w_prefs w) (tree_of (w_objs w) o) false (w_base w) (w_apc w), X0)
       | None => (w, X2)
       end
+  | GConfigApc b =>
+      (mkWorld (w_objs w) (w_branch w) (w_stack w) (w_prefs w) (w_wt w) (w_unmerged w) (w_base w) b, X0)
   | _ => (w, X2)
   end.
 
@@ -1057,7 +1102,7 @@ Definition run_edit (w : world) (loc : option str) (meta : N) (msg : str) : worl
                       else
                         let '(objs1, o) := put (w_objs w1) (plain (c_parents old) (c_tree old) meta msg) in
                         let op1 := mkOpened (with_objs w1 objs1) s (op_base op) (op_initialized op) in
-                        transact op1 (opts CAllow true false true true false)
+                        transact op1 (opts CAllow (w_apc (op_world op1)) false true true false)
                           (fun t =>
                              let above := after_name pn (t_applied t) in
                              let '(t1, extra) := pop_patches (fun n => mem n above) t in
@@ -1098,11 +1143,11 @@ Definition run_rebase (w : world) (tgt : gtarget) : world * exitc :=
           else if dirty w1 then err2 w1
           else
             let applied := s_applied s in
-            match transact op (opts CDisallow true false true true false)
+            match transact op (opts CDisallow (w_apc (op_world op)) false true true false)
                            (fun t => TOk (fst (pop_patches (fun n => mem n applied) t))) MOp with
             | (w2, X0) =>
                 let w3 := mkWorld (w_objs w2) target (w_stack w2) (w_prefs w2)
-                                  (tree_of (w_objs w2) target) false (w_base w2) in
+                                  (tree_of (w_objs w2) target) false (w_base w2) (w_apc w2) in
                 match open_stack PRequire w3 with
                 | None => err2 w3
                 | Some op3 =>
@@ -1110,7 +1155,7 @@ Definition run_rebase (w : world) (tgt : gtarget) : world * exitc :=
                     | None => err2 (op_world op3)
                     | Some op4 =>
                         if negb (head_top_ok op4) then err2 (op_world op4)
-                        else transact op4 (opts CDisallow true false true true false)
+                        else transact op4 (opts CDisallow (w_apc (op_world op4)) false true true false)
                                       (push_patches applied false) MOp
                     end
                 end
@@ -1219,11 +1264,81 @@ Definition run_squash (w : world) (ranges : list str) (nm : str) (meta : N) (msg
               else if Nat.ltb (length ps) 2 then err2 w1
               else
                 let should_push := existsb (fun n => mem n ps) (s_applied s) in
-                let o := opts CAllow true false true true false in
+                let o := opts CAllow (w_apc w1) false true true false in
                 let '(w', x) := transact op o (squash_closure ps newn meta msg should_push) MOp in
                 if op_initialized op && squash_conflicts ps meta msg (begin_txn op o) then (w', X3) else (w', x))
       end
   end.
+
+(* ---------------------------------------------------------------- pick *)
+
+(* the source of a pick: a patch of this stack (a single locator may name any patch, hidden
+   ones included) or a commit *)
+Definition pick_source (op : opened) (src : gtarget) : option oid :=
+  let w := op_world op in
+  match src with
+  | TPatch n => pm_get (s_patches (op_state op)) n
+  | TBaseAncestor k => ancestor (w_objs w) (op_base op) k
+  | THeadAncestor k => ancestor (w_objs w) (w_branch w) k
+  end.
+
+Section Pick.
+  Variable lower_s : str -> str.
+
+  (* stg pick [--name <nm>] [--noapply] <source> (one source; no --fold / --update / --revert /
+     --expose / --parent / --ref-branch): a new commit with the source's tree, first parent,
+     author and message becomes the first unapplied patch under a name made unique, and is
+     pushed unless --noapply *)
+  Definition run_pick (w : world) (src : gtarget) (nm : option str) (noapply : bool) : world * exitc :=
+    let nm_ok := match nm with
+                 | Some x => match from_str x with Some n => Some (Some n) | None => None end
+                 | None => Some None end in
+    match nm_ok with
+    | None => (w, X1)
+    | Some given =>
+        match open_stack PAuto w with
+        | None => err2 w
+        | Some op =>
+            let w1 := op_world op in
+            let s := op_state op in
+            if negb noapply && dirty w1 then err2 w1
+            else if negb noapply && negb (head_top_ok op) then err2 w1
+            else
+              match pick_source op src with
+              | None => err2 w1
+              | Some o =>
+                  let cand : res name :=
+                    match given with
+                    | Some n => Ok n
+                    | None => match src with
+                              | TPatch n => Ok n
+                              | _ => make lower_s (subj_of (w_objs w1) o) false (Some 30)
+                              end
+                    end in
+                  match cand with
+                  | Ok pn0 =>
+                      match uniquify pn0 [] (all_of s) with
+                      | UFuel => (w1, XPanic)
+                      | UOk pn =>
+                          match get (w_objs w1) o, first_parent (w_objs w1) o with
+                          | Some c, Some par =>
+                              let '(objs', o') :=
+                                put (w_objs w1) (plain [par] (c_tree c) (c_meta c) (c_subj c)) in
+                              let op' := mkOpened (with_objs w1 objs') s (op_base op) (op_initialized op) in
+                              transact op' (opts CDisallow (w_apc (op_world op')) false true true false)
+                                (fun t => tbind (new_unapplied pn o' 0 t)
+                                            (fun t1 => if noapply then TOk t1
+                                                       else push_patches [pn] false t1))
+                                MOp
+                          | _, _ => err2 w1
+                          end
+                      end
+                  | _ => (w1, XPanic)
+                  end
+              end
+        end
+    end.
+End Pick.
 
 (* ---------------------------------------------------------------- dispatcher *)
 
@@ -1246,7 +1361,7 @@ Section Step.
     | CUnhide r => run_unhide w r
     | CRename o n => run_rename w o n
     | CCommit r n al ae => run_commit w r n al ae
-    | CUncommit n names => run_uncommit w n names
+    | CUncommit n names => run_uncommit lower_s w n names
     | CClean a u => run_clean w a u
     | CSpill => run_spill w
     | CUndo n h => run_undo w n h
@@ -1257,9 +1372,10 @@ Section Step.
     | CEdit l m msg => run_edit w l m msg
     | CRebase t => run_rebase w t
     | CSquash r n m msg => run_squash w r n m msg
+    | CPick src n na => run_pick lower_s w src n na
     | CInspect => match open_stack PAllow w with
                   | Some op => (op_world op, X0) | None => err2 w end
-    | GEdit _ _ | GCommit _ _ | GAmend _ _ | GResetHard _ | GMerge _ => run_git w c
+    | GEdit _ _ | GCommit _ _ | GAmend _ _ | GResetHard _ | GMerge _ | GConfigApc _ => run_git w c
     end.
 
   Definition run (w : world) (cs : list cmd) : world := fold_left (fun w c => fst (step w c)) cs w.
@@ -1267,4 +1383,4 @@ End Step.
 
 (* the initial world: one root commit with the given tree, branch on it, clean work tree *)
 Definition init_world (t : tree) : world :=
-  mkWorld [plain [] t 0 []] O None [] t false O.
+  mkWorld [plain [] t 0 []] O None [] t false O true.
